@@ -50,12 +50,12 @@ void generate(Rng& r, Workload& w, int tier) {
     // mostly a handful of sequences; one run in five has many (17..48) short ones:
     // sample sorting inside the splitters behaves differently beyond 16 sequences
     const bool many = r.chance(1, 5);
-    int k = many ? int(r.range(17, 48)) : int(r.range(1, 6));
+    int k = many ? int(r.range(17, 48)) : int(r.range(1, tier ? 10 : 6));
     const int many_len = int(r.range(1, 4));
     int universe = r.chance(1, 4) ? 1 : int(r.range(2, 6));
     int dominant = r.chance(1, 4) ? int(r.below(uint64_t(k))) : -1;
     for (int s = 0; s < k; ++s) {
-        int len = r.chance(1, 5) ? 0 : int(r.range(0, tier ? 16 : 12));
+        int len = r.chance(1, 5) ? 0 : int(r.range(0, tier ? 40 : 12));
         // many sequences: similar lengths (singletons, pairs, ...), so that most of them take part in the splitter sampling
         if (many) len = r.chance(4, 5) ? many_len : int(r.range(0, many_len));
         if (s == dominant) len = int(r.range(10, tier ? 40 : 24));
